@@ -59,6 +59,9 @@ impl GC {
     /// Sweeps all objects
     /// This is automatically called once the Garbage Collector is dropped
     pub fn destroy(&mut self) {
+        // nothing is reachable anymore: sweep with a bitmap of all zeroes
+        self.mark_bitmap.clear();
+        self.mark_bitmap.resize(self.objects.len(), false);
         self.sweep();
     }
 
@@ -73,7 +76,9 @@ impl GC {
         #[cfg(feature = "verif")]
         let managed_before = self.objects.len();
 
+        // one (cleared) mark bit per traced object
         self.mark_bitmap.clear();
+        self.mark_bitmap.resize(self.objects.len(), false);
 
         // Mark all reachable objects
         for root in roots.iter() {
@@ -118,12 +123,16 @@ impl GC {
             return;
         }
 
-        let index = unsafe {
-            let object_ptr: *mut Object = o.as_ptr().cast();
-            let universe_ptr: *const Object = self.objects.as_ptr().cast();
-            object_ptr.offset_from(universe_ptr) as usize
+        // The position of this object in the list of traced objects is the position of its mark bit.
+        // Objects that are not traced by this garbage collector are none of its business.
+        let index = match self
+            .objects
+            .iter()
+            .position(|a| std::ptr::eq(a.as_ptr(), o.as_ptr()))
+        {
+            Some(index) => index,
+            None => return,
         };
-        debug_assert!(index < self.objects.len());
 
         if o.tag() == Type::Array {
             // Safety: we know the size of mark_bitmap.
